@@ -4,7 +4,7 @@
    group AND every filter that only mentions rollup columns are such predicates.  Gen/Derivable_gen.v and
    Gen/GranCompat_gen.v are `_is_measure_derivable` / `_is_granularity_compatible`, regenerated from /repo on every run. *)
 From Coq Require Import ZArith String List Bool.
-Require Import V.Base.PyLib V.Base.Calendar V.Base.CalendarFacts V.Model.Refresh V.Model.Preagg V.Proofs.C07_proofs V.Gen.Derivable_gen V.Gen.GranCompat_gen V.Model.Satisfy V.Gen.Satisfy_gen V.Proofs.C08_proofs.
+Require Import V.Base.PyLib V.Base.Calendar V.Base.CalendarFacts V.Model.Refresh V.Model.Preagg V.Proofs.C07_proofs V.Gen.Derivable_gen V.Gen.GranCompat_gen V.Model.Satisfy V.Gen.Satisfy_gen V.Model.MatShape V.Gen.Materialize_gen V.Proofs.C08_proofs.
 Import ListNotations.
 Open Scope Z_scope.
 
@@ -60,6 +60,15 @@ Theorem C08_matcher_sound : forall p qdims metrics qgran compatible fcols, can_s
   (forall cols c, fcols = Some cols -> In c cols -> rollup_column p c = true) /\
   (forall qg pg, qgran = Some qg -> p_gran p = Some pg -> qg <> ""%string -> pg <> ""%string -> compatible = true).
 Proof. exact can_satisfy_sound. Qed.
+
+(* THE ROLLUP TABLE, regenerated: Gen/Materialize_gen.v holds the shape of the statement generate_materialization_sql writes for 120 scripted rollups (with /
+   without time dimension and granularity, unknown names, 0-2 dimensions, measures of every aggregation kind), extracted from pre_aggregation.py on every
+   run by executing the method's AST (translator/gen_materialize.py, fail closed, validated against CPython; table- and sql-backed sources).  On every one:
+   the columns are the DATE_TRUNC bucket (only when time dimension AND granularity are given), the known dimensions, one <measure>_raw per known measure
+   holding the measure's own aggregate (SUM, COUNT( * ), COUNT(x), MIN, MAX -- and AVG / COUNT(DISTINCT) / anything else verbatim), grouped by exactly
+   the bucket and dimension columns: the table Model/Preagg.materialize_p describes. *)
+Theorem C08_materialization_shape : forallb (mat_row_ok script_dims script_measures) mat_rows = true.
+Proof. vm_compute. reflexivity. Qed.
 
 (* why nothing else may be routed (each was admitted by the matcher at the pinned commit) *)
 Example C08_median_refuted :
